@@ -18,6 +18,9 @@ CONSTANTS
   SharedGen = FALSE
   EmitBeforeClose = TRUE
   MaxHeld = 0
+  MaxSHeld = 0
+  StartBeforeEmit = TRUE
+  CmdFreshTicket = TRUE
 INVARIANT TypeOK
 INVARIANT DistinctTickets
 INVARIANT RegistryExact
